@@ -104,6 +104,27 @@ def run(ctx):
             seqres["err"] = ex
     seqt = threading.Thread(target=do_seq)
     seqt.start()
+    runcases = ctx.read_ndjson(os.path.join(g.dir, "c04run.ndjson"))
+    runcases.sort(key=lambda q: (q["level"], q["caller"], q["opt"]["sync"]))
+    for i, q in enumerate(runcases):
+        q["id"] = 200000 + i
+    runres = {}
+
+    def do_run():
+        try:
+            cf = ctx.path("run", "cases.ndjson")
+            with open(cf, "w") as fh:
+                for q in runcases:
+                    fh.write(json.dumps(q) + "\n")
+            of = ctx.path("run", "obs.ndjson")
+            sd = ctx.mkdir("run", "s")
+            os.chmod(os.path.dirname(sd), 0o755)
+            ctx.vdrive("launch", ["c04run", cf, of, sd, lc.build_probe(ctx)], timeout=600)
+            runres["obs"] = ctx.read_ndjson(of)
+        except Exception as ex:
+            runres["err"] = ex
+    runt = threading.Thread(target=do_run)
+    runt.start()
     obs, _ = lc.run_chunks(ctx, "c04", cases, "plain", par=4, timeout=ctx.pick(300, 1500))
     st_pool = [c for c in cases if not c["nostrace"]]
     rng.shuffle(st_pool)
@@ -114,7 +135,12 @@ def run(ctx):
         st_cases.append(c2)
     sobs, logs = lc.run_chunks(ctx, "c04", st_cases, "strace", par=4, strace=True, timeout=ctx.pick(300, 1500))
     ctx.log("launches: %d plain, %d under strace" % (len(obs), len(sobs)))
-    allobs = obs + sobs
+    runt.join()
+    if "err" in runres:
+        raise Inconclusive("runner-level driver failed: %s" % runres["err"])
+    robs = runres["obs"]
+    ctx.log("runner level: %d launches through runner/unshare and runner/ptrace as uid 0 and 65534" % len(robs))
+    allobs = obs + sobs + robs
     seqt.join()
     if "err" in seqres:
         raise Inconclusive("container-sequence driver failed: %s" % seqres["err"])
@@ -152,7 +178,8 @@ def run(ctx):
     setups = []
     for b in bad:
         o = allobs[b["i"] - 1]
-        tag = "%s [%s]" % (b["what"], " ".join(lc.opt_on(o["opt"])))
+        tag = "%s [%s]%s" % (b["what"], " ".join(lc.opt_on(o["opt"])),
+                             (" via runner/%s called as uid %d" % (o["level"], o["caller"])) if o.get("level") else "")
         if b["j"] == "setup":
             setups.append("driver could not arrange case %d: %s" % (o["id"], tag))
             continue
@@ -183,6 +210,7 @@ def run(ctx):
         else:
             ctx.violation("%s:%s>%s" % (b["what"], b["prev"], b["cur"]), "C04 (container path) " + tag, o)
     ctx.cov["container_sequence_execves"] = len(seqobs)
+    ctx.cov["runner_level_launches"] = len(robs)
     ctx.cov["kernel_truth_mismatches"] = truth
     # set-up trouble makes the run inconclusive unless a real breach was observed anyway
     if setups and not ctx.violations:
@@ -218,6 +246,7 @@ def run(ctx):
         ctx.sample({"id": traces[0]["id"], "child": [e["n"] for e in traces[0]["child"]], "parent": [e["n"] for e in traces[0]["parent"]]})
     ctx.assumptions += [
         "the launcher carries supplementary groups {4242, 4343}; in a user namespace whose setgroups file says deny the kernel lets nobody change the groups, so 'requested groups' is judged only where setgroups is allowed (the code skips the call for deny + empty list; deny + non-empty list is refused by the kernel and is a C07 recipe)",
+        "runner level: runner/unshare.Runner and runner/ptrace.Runner are called by a helper process running as uid 0 and as uid 65534 (unprivileged user namespaces work here); the started program is held against Post of the option record the runner is documented to produce",
         "container path: the Execve calls of one sequence share ONE pre-forked environment; filter f1 / f2 answer personality(2) with errno 77 / 78",
         "launcher is root without CAP_SYS_RESOURCE; requested ids are mapped 1:1 when a user namespace is used",
         "pivot root is only run with a mount namespace and host/domain name only with a UTS namespace (anything else would reconfigure the host)",
